@@ -6,4 +6,5 @@ export CARGO_NET_OFFLINE=true
 mkdir -p work evidence replays
 ( cd lean && lake build Postcard pcmodel )
 ( cd harness && cargo build --release --offline )
+( cd harness_alloc && cargo build --release --offline )
 echo "setup ok"
